@@ -236,6 +236,10 @@ pub fn label_encoder_paths(info: &FrameInfo, input_len: usize, ctx: &mut CaseCtx
                     ctx.feat_if(l.ltype >= 2 && l.size_format == 3, "enc:literals_18bit");
                 }
                 if let Some(s) = &b.seq {
+                    ctx.feat_if(s.modes[0] == 2 && s.logs[0] == 9, "enc:ll_table_at_its_limit_(log_9)");
+                    ctx.feat_if(s.modes[1] == 2 && s.logs[1] == 8, "enc:of_table_at_its_limit_(log_8)");
+                    ctx.feat_if(s.modes[1] == 2 && s.logs[1] == 7, "enc:of_table_log_7");
+                    ctx.feat_if(s.modes[2] == 2 && s.logs[2] == 9, "enc:ml_table_at_its_limit_(log_9)");
                     ctx.feat_if(s.nseq == 0, "enc:no_sequences");
                     ctx.feat_if(s.count_bytes == 2, "enc:2byte_seq_count");
                     ctx.feat_if(s.count_bytes == 3, "enc:3byte_seq_count");
